@@ -66,11 +66,17 @@ from rules.C04 import auto_discharge
 for s in S:
     if s['kind'] == 'overflow-Add':
         continue
-    if auto_discharge(c, s):
+    ad = auto_discharge(c, s)
+    if ad:
+        # discharged by a contract rule: remembered per shape (count 0 + `auto`), so that the same access
+        # written in a way the rule does not recognise any more keeps a slot
+        e = table.setdefault(s['ckey'], {"class": ad[0], "reasons": [ad[1]], "count": 0, "sites": [], "auto": 0})
+        e["auto"] = e.get("auto", 0) + 1
+        e["sites"].append(s['key'].split("|")[0])
         continue
     for rx, cls, reason in RULES:
         if re.search(rx, s['key']):
-            e = table.setdefault(s['ckey'], {"class": cls, "reasons": [], "count": 0, "sites": []})
+            e = table.setdefault(s['ckey'], {"class": cls, "reasons": [], "count": 0, "sites": [], "auto": 0})
             e["count"] += 1
             if reason not in e["reasons"]:
                 e["reasons"].append(reason)
